@@ -18,6 +18,7 @@ import (
 	"fmt"
 	"go/ast"
 	"go/token"
+	"go/types"
 	"sort"
 	"strconv"
 	"strings"
@@ -32,13 +33,73 @@ var fnTargets = []struct {
 	name, stub string
 	externs    [][2]string
 }{
+	// methods of RingBufferRateLimiter: the receiver's modelled fields are a Lean structure (fnStructs),
+	// a method without result returns the receiver's new value, one that can panic returns an Option
+	{"RingBufferRateLimiter.advance", "def RingBufferRateLimiter_advance {τ : Type} [Inhabited τ] (r : RingBufferRateLimiter τ) : RingBufferRateLimiter τ := r", nil},
+	{"RingBufferRateLimiter.SetMaxEvents", "def RingBufferRateLimiter_SetMaxEvents {τ : Type} [Inhabited τ] (r : RingBufferRateLimiter τ) (_ : Int) : Option (RingBufferRateLimiter τ) := some r", nil},
 	{"SubjectQualifiesForCert", "def SubjectQualifiesForCert (_ : Str) : Bool := false", nil},
 	{"MatchWildcard", "def MatchWildcard (_ _ : Str) : Bool := false", nil},
 	{"SubjectIsInternal", "def SubjectIsInternal (_ : Str → Str) (_ : Str → Bool) (_ : Str) : Bool := false",
 		[][2]string{{"hostOnly", "Str → Str"}, {"isInternalIP", "Str → Bool"}}},
 }
 
+// receiver structs: the fields that are modelled (Go type as written in the source, Lean type);
+// every other field of the struct (mutex, channels) is outside the translated fragment — calls on
+// `r.mu` are skipped (atomicity is the guarded-state checker's subject, CM/Tie/Guard*.lean)
+var fnStructs = map[string][][3]string{
+	"RingBufferRateLimiter": {{"window", "time.Duration", "Int"}, {"ring", "[]time.Time", "List τ"}, {"cursor", "int", "Int"}},
+}
+
 func init() { generators["Fn"] = genFn }
+
+var panicking = map[string]bool{}
+
+func checkStruct(p *pkgInfo, sn string) bool {
+	for _, f := range p.files {
+		for _, d := range f.Decls {
+			gd, ok := d.(*ast.GenDecl)
+			if !ok {
+				continue
+			}
+			for _, sp := range gd.Specs {
+				ts, ok := sp.(*ast.TypeSpec)
+				if !ok || ts.Name.Name != sn {
+					continue
+				}
+				st, ok := ts.Type.(*ast.StructType)
+				if !ok {
+					return false
+				}
+				have := map[string]string{}
+				for _, fl := range st.Fields.List {
+					for _, n := range fl.Names {
+						have[n.Name] = types.ExprString(fl.Type)
+					}
+				}
+				for _, want := range fnStructs[sn] {
+					if have[want[0]] != want[1] {
+						return false
+					}
+				}
+				return true
+			}
+		}
+	}
+	return false
+}
+
+func fnPanics(b *ast.BlockStmt) bool {
+	found := false
+	ast.Inspect(b, func(n ast.Node) bool {
+		if c, ok := n.(*ast.CallExpr); ok {
+			if id, ok := c.Fun.(*ast.Ident); ok && id.Name == "panic" {
+				found = true
+			}
+		}
+		return true
+	})
+	return found
+}
 
 type fnErr struct{ msg string }
 
@@ -53,12 +114,55 @@ type fnCtx struct {
 	fresh   int
 	targets map[string]bool
 	externs map[string]bool
+	recv    string            // receiver variable of a method ("" for a function)
+	recvTy  string            // its struct
+	void    bool              // method without result: returns the receiver's new value
+	opt     bool              // may panic: the result is an Option, `panic` is `none`
+	slices  map[string]bool   // locals known to be slices (made with `make([]T, n)`)
+	brk     bool              // the innermost loop contains `break` (its body yields Step3)
+}
+
+func (c *fnCtx) child(st []string) *fnCtx {
+	in := *c
+	in.inLoop, in.state = true, st
+	in.ranged = map[string]string{}
+	for k, v := range c.ranged {
+		in.ranged[k] = v
+	}
+	return &in
+}
+
+// value returned by `return e` / `return` / falling off the end of a void method
+func (c *fnCtx) result(e string) string {
+	if c.opt {
+		e = "some " + paren(e)
+	}
+	if c.inLoop {
+		return ".ret " + paren(e)
+	}
+	return e
 }
 
 func genFn(p *pkgInfo, l *leanFile) {
 	l.pf("import CM.Lib.GoLite\nset_option linter.unusedVariables false\nnamespace CM.Gen.Fn\nopen CM.Go\n\n")
 	tg := map[string]bool{}
 	var done []string
+	var snames []string
+	for sn := range fnStructs {
+		snames = append(snames, sn)
+	}
+	sort.Strings(snames)
+	for _, sn := range snames {
+		okS := checkStruct(p, sn)
+		if !okS {
+			miss("struct " + sn + " no longer has the modelled fields with the expected types")
+		}
+		l.pf("/-- the modelled fields of `type %s struct` (τ = time.Time; its zero value is `default`) -/\nstructure %s (τ : Type) where\n", sn, sn)
+		for _, f := range fnStructs[sn] {
+			l.pf("  %s : %s\n", f[0], f[2])
+		}
+		l.pf("\n")
+	}
 	for _, t := range fnTargets {
 		name := t.name
 		fd := p.funcs[name]
@@ -74,6 +178,12 @@ func genFn(p *pkgInfo, l *leanFile) {
 			continue
 		}
 		tg[name] = true
+		if i := strings.Index(name, "."); i >= 0 {
+			tg[name[i+1:]] = true // method name, for calls on the receiver
+			if fnPanics(fd.Body) {
+				panicking[name[i+1:]] = true
+			}
+		}
 		done = append(done, name)
 		l.pf("%s\n", txt)
 	}
@@ -96,6 +206,13 @@ func leanType(e ast.Expr) string {
 		if t.Len == nil {
 			return "(List " + leanType(t.Elt) + ")"
 		}
+	case *ast.SelectorExpr:
+		switch types.ExprString(t) {
+		case "time.Time":
+			return "τ"
+		case "time.Duration":
+			return "Int"
+		}
 	}
 	fnFail("type %T not supported", e)
 	return ""
@@ -111,11 +228,37 @@ func trFunc(p *pkgInfo, fd *ast.FuncDecl, tg map[string]bool, externs [][2]strin
 			panic(r)
 		}
 	}()
-	if fd.Type.Results == nil || len(fd.Type.Results.List) != 1 || len(fd.Type.Results.List[0].Names) > 0 {
-		fnFail("exactly one unnamed result expected")
-	}
-	c := &fnCtx{p: p, retTy: leanType(fd.Type.Results.List[0].Type), ranged: map[string]string{}, targets: tg, externs: map[string]bool{}}
+	c := &fnCtx{p: p, ranged: map[string]string{}, targets: tg, externs: map[string]bool{}, slices: map[string]bool{}}
 	var params []string
+	name := fd.Name.Name
+	generic := ""
+	if fd.Recv != nil && len(fd.Recv.List) == 1 && len(fd.Recv.List[0].Names) == 1 {
+		t := fd.Recv.List[0].Type
+		if st, ok := t.(*ast.StarExpr); ok {
+			t = st.X
+		}
+		c.recvTy = types.ExprString(t)
+		if _, ok := fnStructs[c.recvTy]; !ok {
+			fnFail("receiver type %s is not a modelled struct", c.recvTy)
+		}
+		c.recv = fd.Recv.List[0].Names[0].Name
+		name = c.recvTy + "_" + name
+		generic = "{τ : Type} [Inhabited τ] "
+		params = append(params, fmt.Sprintf("(%s : %s τ)", c.recv, c.recvTy))
+	}
+	c.opt = fnPanics(fd.Body)
+	switch {
+	case fd.Type.Results == nil && c.recv != "":
+		c.void = true
+		c.retTy = c.recvTy + " τ"
+	case fd.Type.Results != nil && len(fd.Type.Results.List) == 1 && len(fd.Type.Results.List[0].Names) == 0:
+		c.retTy = leanType(fd.Type.Results.List[0].Type)
+	default:
+		fnFail("exactly one unnamed result (or none, for a method) expected")
+	}
+	if c.opt {
+		c.retTy = "Option (" + c.retTy + ")"
+	}
 	for _, e := range externs {
 		c.externs[e[0]] = true
 		params = append(params, fmt.Sprintf("(%s : %s)", e[0], e[1]))
@@ -126,7 +269,7 @@ func trFunc(p *pkgInfo, fd *ast.FuncDecl, tg map[string]bool, externs [][2]strin
 		}
 	}
 	body := c.stmts(fd.Body.List, "  ")
-	return fmt.Sprintf("/-- translated from `func %s` -/\ndef %s %s : %s :=\n%s\n", fd.Name.Name, fd.Name.Name,
+	return fmt.Sprintf("/-- translated from `func %s` -/\ndef %s %s%s : %s :=\n%s\n", funcKey(fd), name, generic,
 		strings.Join(params, " "), c.retTy, body), ""
 }
 
@@ -149,7 +292,14 @@ func terminates(list []ast.Stmt) bool {
 	case *ast.ReturnStmt:
 		return true
 	case *ast.BranchStmt:
-		return s.Tok == token.CONTINUE
+		return s.Tok == token.CONTINUE || s.Tok == token.BREAK
+	case *ast.ExprStmt:
+		if ce, ok := s.X.(*ast.CallExpr); ok {
+			if id, ok := ce.Fun.(*ast.Ident); ok && id.Name == "panic" {
+				return true
+			}
+		}
+		return false
 	case *ast.IfStmt:
 		if s.Else == nil {
 			return false
@@ -189,8 +339,50 @@ func assigned(list []ast.Stmt, declared map[string]bool, out map[string]bool) {
 					if id, ok := x.X.(*ast.Ident); ok && !decl[id.Name] {
 						out[id.Name] = true
 					}
+					if se, ok := x.X.(*ast.SelectorExpr); ok {
+						if id, ok := se.X.(*ast.Ident); ok && !decl[id.Name] {
+							out[id.Name] = true
+						}
+					}
+				case *ast.SelectorExpr:
+					if id, ok := x.X.(*ast.Ident); ok && !decl[id.Name] {
+						out[id.Name] = true
+					}
 				}
 			}
+		case *ast.IncDecStmt:
+			switch x := s.X.(type) {
+			case *ast.Ident:
+				if !decl[x.Name] {
+					out[x.Name] = true
+				}
+			case *ast.SelectorExpr:
+				if id, ok := x.X.(*ast.Ident); ok && !decl[id.Name] {
+					out[id.Name] = true
+				}
+			}
+		case *ast.ExprStmt:
+			// a method call on a variable may change it (mutex calls excepted)
+			if ce, ok := s.X.(*ast.CallExpr); ok {
+				if se, ok := ce.Fun.(*ast.SelectorExpr); ok {
+					if id, ok := se.X.(*ast.Ident); ok && !decl[id.Name] && id.Name != "strings" {
+						out[id.Name] = true
+					}
+				}
+			}
+		case *ast.ForStmt:
+			d2 := map[string]bool{}
+			for k := range decl {
+				d2[k] = true
+			}
+			if as, ok := s.Init.(*ast.AssignStmt); ok && as.Tok == token.DEFINE {
+				for _, lhs := range as.Lhs {
+					if id, ok := lhs.(*ast.Ident); ok {
+						d2[id.Name] = true
+					}
+				}
+			}
+			assigned(s.Body.List, d2, out)
 		case *ast.IfStmt:
 			assigned(s.Body.List, decl, out)
 			if s.Else != nil {
@@ -222,8 +414,100 @@ func (c *fnCtx) fallOff() string {
 	if c.inLoop {
 		return ".next " + tuple(c.state)
 	}
+	if c.void {
+		return c.result(c.recv)
+	}
 	fnFail("control reaches the end of the function without a return")
 	return ""
+}
+
+// is the variable the target of a plain assignment (not of an element write) in the list?
+func reassigned(list []ast.Stmt, v string) bool {
+	found := false
+	for _, st := range list {
+		ast.Inspect(st, func(n ast.Node) bool {
+			if as, ok := n.(*ast.AssignStmt); ok {
+				for _, lhs := range as.Lhs {
+					if id, ok := lhs.(*ast.Ident); ok && id.Name == v {
+						found = true
+					}
+				}
+			}
+			return true
+		})
+	}
+	return found
+}
+
+func hasBreak(list []ast.Stmt) bool {
+	found := false
+	for _, st := range list {
+		ast.Inspect(st, func(n ast.Node) bool {
+			switch x := n.(type) {
+			case *ast.ForStmt, *ast.RangeStmt:
+				return false // a break in there belongs to that loop
+			case *ast.BranchStmt:
+				if x.Tok == token.BREAK {
+					found = true
+				}
+			}
+			return true
+		})
+	}
+	return found
+}
+
+func isMutexCall(e ast.Expr, recv string) bool {
+	ce, ok := e.(*ast.CallExpr)
+	if !ok {
+		return false
+	}
+	se, ok := ce.Fun.(*ast.SelectorExpr)
+	if !ok || (se.Sel.Name != "Lock" && se.Sel.Name != "Unlock" && se.Sel.Name != "RLock" && se.Sel.Name != "RUnlock") {
+		return false
+	}
+	in, ok := se.X.(*ast.SelectorExpr)
+	if !ok {
+		return false
+	}
+	id, ok := in.X.(*ast.Ident)
+	return ok && id.Name == recv && recv != ""
+}
+
+// loop shared by `range` and the three-clause `for`
+func (c *fnCtx) loop(iv, count, pre string, body, rest []ast.Stmt, ind string, ranged string) string {
+	as := map[string]bool{}
+	assigned(body, map[string]bool{iv: true}, as)
+	var st []string
+	for v := range as {
+		st = append(st, v)
+	}
+	sort.Strings(st)
+	inner := c.child(st)
+	inner.brk = hasBreak(body)
+	if ranged != "" {
+		inner.ranged[iv] = ranged
+	}
+	var unpack string
+	if len(st) > 0 {
+		unpack = fmt.Sprintf("%s    let %s := st\n", ind, tuple(st))
+	}
+	b := inner.stmts(body, ind+"    ")
+	c.fresh = inner.fresh
+	comb := "Go.forN"
+	if inner.brk {
+		comb = "Go.forB"
+	}
+	retArm := "v"
+	if c.inLoop {
+		retArm = ".ret v"
+	}
+	var after string
+	if len(st) > 0 {
+		after = fmt.Sprintf("%s    let %s := st\n", ind, tuple(st))
+	}
+	return fmt.Sprintf("%smatch %s (ρ := %s) (fun %s st =>\n%s%s%s) %s 0 %s with\n%s| .ret v => %s\n%s| .next st =>\n%s%s",
+		ind, comb, c.retTy, iv, unpack, pre, b, count, tuple(st), ind, retArm, ind, after, c.stmts(rest, ind+"    "))
 }
 
 func (c *fnCtx) stmts(list []ast.Stmt, ind string) string {
@@ -233,19 +517,107 @@ func (c *fnCtx) stmts(list []ast.Stmt, ind string) string {
 	rest := list[1:]
 	switch s := list[0].(type) {
 	case *ast.ReturnStmt:
-		if len(s.Results) != 1 {
+		if len(s.Results) == 0 && c.void {
+			return ind + c.result(c.recv)
+		}
+		if len(s.Results) != 1 || c.void {
 			fnFail("return with %d values", len(s.Results))
 		}
-		e := c.expr(s.Results[0])
-		if c.inLoop {
-			return ind + ".ret " + paren(e)
-		}
-		return ind + e
+		return ind + c.result(c.expr(s.Results[0]))
 	case *ast.BranchStmt:
 		if s.Tok == token.CONTINUE && c.inLoop && s.Label == nil {
 			return ind + ".next " + tuple(c.state)
 		}
+		if s.Tok == token.BREAK && c.inLoop && c.brk && s.Label == nil {
+			return ind + ".brk " + tuple(c.state)
+		}
 		fnFail("branch statement %s not supported", s.Tok)
+	case *ast.DeferStmt:
+		if isMutexCall(s.Call, c.recv) {
+			return c.stmts(rest, ind) // atomicity is not this translation's subject
+		}
+		fnFail("defer of something else than the receiver's mutex")
+	case *ast.ExprStmt:
+		if isMutexCall(s.X, c.recv) {
+			return c.stmts(rest, ind)
+		}
+		if ce, ok := s.X.(*ast.CallExpr); ok {
+			if id, ok := ce.Fun.(*ast.Ident); ok && id.Name == "panic" {
+				if !c.opt {
+					fnFail("panic in a function not marked as panicking")
+				}
+				if c.inLoop {
+					return ind + ".ret none"
+				}
+				return ind + "none"
+			}
+			if se, ok := ce.Fun.(*ast.SelectorExpr); ok {
+				if id, ok := se.X.(*ast.Ident); ok && id.Name == c.recv && c.recv != "" && c.targets[se.Sel.Name] && len(ce.Args) == 0 {
+					if panicking[se.Sel.Name] {
+						fnFail("call of the panicking method %s", se.Sel.Name)
+					}
+					return fmt.Sprintf("%slet %s := %s_%s %s\n%s", ind, c.recv, c.recvTy, se.Sel.Name, c.recv, c.stmts(rest, ind))
+				}
+			}
+		}
+		fnFail("expression statement not supported")
+	case *ast.IncDecStmt:
+		op := " + 1"
+		if s.Tok == token.DEC {
+			op = " - 1"
+		}
+		switch x := s.X.(type) {
+		case *ast.Ident:
+			return fmt.Sprintf("%slet %s := %s%s\n%s", ind, x.Name, x.Name, op, c.stmts(rest, ind))
+		case *ast.SelectorExpr:
+			if id, ok := x.X.(*ast.Ident); ok && id.Name == c.recv && c.recv != "" {
+				return fmt.Sprintf("%slet %s := { %s with %s := %s.%s%s }\n%s", ind, c.recv, c.recv, x.Sel.Name, c.recv, x.Sel.Name, op, c.stmts(rest, ind))
+			}
+		}
+		fnFail("++/-- on something else than a local or a receiver field")
+	case *ast.ForStmt:
+		// for i := 0; i < N; i++ { body } with N not reassigned in the body
+		ini, ok1 := s.Init.(*ast.AssignStmt)
+		cond, ok2 := s.Cond.(*ast.BinaryExpr)
+		post, ok3 := s.Post.(*ast.IncDecStmt)
+		if !ok1 || !ok2 || !ok3 || ini.Tok != token.DEFINE || len(ini.Lhs) != 1 || cond.Op != token.LSS || post.Tok != token.INC {
+			fnFail("for statement other than `for i := 0; i < N; i++`")
+		}
+		iv, okI := ini.Lhs[0].(*ast.Ident)
+		zero, okZ := ini.Rhs[0].(*ast.BasicLit)
+		cl, okC := cond.X.(*ast.Ident)
+		pi, okP := post.X.(*ast.Ident)
+		if !okI || !okZ || zero.Value != "0" || !okC || cl.Name != iv.Name || !okP || pi.Name != iv.Name {
+			fnFail("for statement other than `for i := 0; i < N; i++`")
+		}
+		as := map[string]bool{}
+		assigned(s.Body.List, map[string]bool{}, as)
+		if as[iv.Name] {
+			fnFail("the loop variable is assigned in the body")
+		}
+		// N: a local, or len(local slice); a local must not be REassigned in the body (element writes keep the length)
+		bound := c.expr(cond.Y)
+		var bv string
+		switch y := cond.Y.(type) {
+		case *ast.Ident:
+			bv = y.Name
+			if as[bv] {
+				fnFail("the loop bound is assigned in the body")
+			}
+		case *ast.CallExpr:
+			if id, ok := y.Fun.(*ast.Ident); ok && id.Name == "len" && len(y.Args) == 1 {
+				if a, ok := y.Args[0].(*ast.Ident); ok {
+					bv = a.Name
+					if reassigned(s.Body.List, bv) {
+						fnFail("the slice whose length bounds the loop is reassigned in the body")
+					}
+				}
+			}
+		}
+		if bv == "" {
+			fnFail("loop bound other than a local or len(local)")
+		}
+		return c.loop(iv.Name, "(Int.toNat "+paren(bound)+")", "", s.Body.List, rest, ind, "")
 	case *ast.AssignStmt:
 		if s.Tok != token.DEFINE && s.Tok != token.ASSIGN {
 			fnFail("assignment operator %s not supported", s.Tok)
@@ -262,13 +634,34 @@ func (c *fnCtx) stmts(list []ast.Stmt, ind string) string {
 			case *ast.IndexExpr:
 				base, ok := x.X.(*ast.Ident)
 				idx, ok2 := x.Index.(*ast.Ident)
+				if ok && c.slices[base.Name] {
+					// a local made with make([]T, n): any index (totalised: Go panics out of range — the
+					// bound is part of what the tie's model has to respect)
+					names = append(names, base.Name)
+					vals = append(vals, fmt.Sprintf("Go.set %s %s %s", base.Name, paren(c.expr(x.Index)), paren(c.expr(s.Rhs[i]))))
+					break
+				}
 				if !ok || !ok2 || c.ranged[idx.Name] != base.Name {
 					fnFail("indexed assignment other than xs[i] inside `for i := range xs`")
 				}
 				names = append(names, base.Name)
 				vals = append(vals, fmt.Sprintf("Go.set %s %s %s", base.Name, idx.Name, paren(c.expr(s.Rhs[i]))))
+			case *ast.SelectorExpr:
+				id, ok := x.X.(*ast.Ident)
+				if !ok || id.Name != c.recv || c.recv == "" {
+					fnFail("field assignment on something else than the receiver")
+				}
+				names = append(names, c.recv)
+				vals = append(vals, fmt.Sprintf("{ %s with %s := %s }", c.recv, x.Sel.Name, c.expr(s.Rhs[i])))
 			default:
 				fnFail("assignment target %T not supported", lhs)
+			}
+		}
+		for i, rhs := range s.Rhs {
+			if ce, ok := rhs.(*ast.CallExpr); ok {
+				if id, ok := ce.Fun.(*ast.Ident); ok && id.Name == "make" {
+					c.slices[names[i]] = true
+				}
 			}
 		}
 		if len(names) == 1 {
@@ -312,37 +705,11 @@ func (c *fnCtx) stmts(list []ast.Stmt, ind string) string {
 		if id, ok := s.Key.(*ast.Ident); ok && id.Name != "_" {
 			iv = id.Name
 		}
-		as := map[string]bool{}
-		assigned(s.Body.List, map[string]bool{}, as)
-		var st []string
-		for v := range as {
-			st = append(st, v)
-		}
-		sort.Strings(st)
-		inner := &fnCtx{p: c.p, retTy: c.retTy, inLoop: true, state: st, ranged: map[string]string{}, fresh: c.fresh, targets: c.targets, externs: c.externs}
-		for k, v := range c.ranged {
-			inner.ranged[k] = v
-		}
-		inner.ranged[iv] = xs.Name
 		var pre string
-		if len(st) > 0 {
-			pre = fmt.Sprintf("%s    let %s := st\n", ind, tuple(st))
-		}
 		if id, ok := s.Value.(*ast.Ident); ok && id.Name != "_" {
-			pre += fmt.Sprintf("%s    let %s := Go.idx %s %s\n", ind, id.Name, xs.Name, iv)
+			pre = fmt.Sprintf("%s    let %s := Go.idx %s %s\n", ind, id.Name, xs.Name, iv)
 		}
-		body := inner.stmts(s.Body.List, ind+"    ")
-		c.fresh = inner.fresh
-		var after string
-		if len(st) > 0 {
-			after = fmt.Sprintf("%s    let %s := st\n", ind, tuple(st))
-		}
-		retArm := "v"
-		if c.inLoop {
-			retArm = ".ret v"
-		}
-		return fmt.Sprintf("%smatch Go.forN (ρ := %s) (fun %s st =>\n%s%s) (Go.Len.lenN %s) 0 %s with\n%s| .ret v => %s\n%s| .next st =>\n%s%s",
-			ind, c.retTy, iv, pre, body, xs.Name, tuple(st), ind, retArm, ind, after, c.stmts(rest, ind+"    "))
+		return c.loop(iv, "(Go.Len.lenN "+xs.Name+")", pre, s.Body.List, rest, ind, xs.Name)
 	default:
 		fnFail("statement %T not supported", s)
 	}
@@ -382,6 +749,23 @@ func balanced(s string) bool {
 		}
 	}
 	return d == 0
+}
+
+// receiver fields of slice type and locals made with make([]T, n)
+func (c *fnCtx) isSlice(e ast.Expr) bool {
+	switch x := e.(type) {
+	case *ast.Ident:
+		return c.slices[x.Name]
+	case *ast.SelectorExpr:
+		if id, ok := x.X.(*ast.Ident); ok && id.Name == c.recv && c.recv != "" {
+			for _, f := range fnStructs[c.recvTy] {
+				if f[0] == x.Sel.Name {
+					return strings.HasPrefix(f[1], "[]")
+				}
+			}
+		}
+	}
+	return false
 }
 
 func oneChar(e ast.Expr) (rune, bool) {
@@ -436,6 +820,10 @@ func (c *fnCtx) expr(e ast.Expr) string {
 			return "(" + a + " && " + b + ")"
 		case token.LOR:
 			return "(" + a + " || " + b + ")"
+		case token.ADD:
+			return "(" + a + " + " + b + ")"
+		case token.SUB:
+			return "(" + a + " - " + b + ")"
 		case token.LSS:
 			return "(decide (" + a + " < " + b + "))"
 		case token.LEQ:
@@ -446,7 +834,21 @@ func (c *fnCtx) expr(e ast.Expr) string {
 			return "(decide (" + a + " ≥ " + b + "))"
 		}
 		fnFail("binary %s not supported", x.Op)
+	case *ast.SelectorExpr:
+		if id, ok := x.X.(*ast.Ident); ok && id.Name == c.recv && c.recv != "" {
+			for _, f := range fnStructs[c.recvTy] {
+				if f[0] == x.Sel.Name {
+					return c.recv + "." + x.Sel.Name
+				}
+			}
+			fnFail("receiver field %s is not modelled", x.Sel.Name)
+		}
+		fnFail("selector %s not supported", types.ExprString(x))
 	case *ast.IndexExpr:
+		if c.isSlice(x.X) {
+			// (totalised: Go panics out of range — see the comment at the element write)
+			return "(Go.idx " + paren(c.expr(x.X)) + " " + paren(c.expr(x.Index)) + ")"
+		}
 		base, ok := x.X.(*ast.Ident)
 		idx, ok2 := x.Index.(*ast.Ident)
 		if !ok || !ok2 || c.ranged[idx.Name] != base.Name {
@@ -455,13 +857,26 @@ func (c *fnCtx) expr(e ast.Expr) string {
 		return "(Go.idx " + base.Name + " " + idx.Name + ")"
 	case *ast.CallExpr:
 		var args []string
+		if id, ok := x.Fun.(*ast.Ident); ok && id.Name == "make" && len(x.Args) == 2 {
+			if _, ok := x.Args[0].(*ast.ArrayType); ok {
+				return "(Go.make " + paren(c.expr(x.Args[1])) + ")"
+			}
+		}
 		for _, a := range x.Args {
 			args = append(args, paren(c.expr(a)))
 		}
 		switch f := x.Fun.(type) {
 		case *ast.Ident:
 			if f.Name == "len" && len(args) == 1 {
+				if c.isSlice(x.Args[0]) {
+					return "(Go.lenL " + args[0] + ")"
+				}
 				return "(Go.len " + args[0] + ")"
+			}
+			if f.Name == "make" && len(x.Args) == 2 {
+				if _, ok := x.Args[0].(*ast.ArrayType); ok {
+					return "(Go.make " + paren(c.expr(x.Args[1])) + ")"
+				}
 			}
 			if c.targets[f.Name] || c.externs[f.Name] {
 				return "(" + f.Name + " " + strings.Join(args, " ") + ")"
